@@ -31,12 +31,15 @@ def run(cap):
             nmono += 1
         oid = region.connections["outer"]
         if oid is not None:
-            share = max(share, abs(pv[-1] - mesh.regions[oid].psi_vals[0]))
+            # in units of the floating-point spacing at the boundary value: the closed forms
+            # evaluate 'lower + ...(n)' so the end of one segment equals the start of the next
+            # only up to the rounding of that sum
+            share = max(share, abs(pv[-1] - mesh.regions[oid].psi_vals[0]) / float(np.spacing(max(abs(pv[-1]), abs(pv[0]), abs(mesh.regions[oid].psi_vals[-1])))))
             nshare += 1
         wdx = max(wdx, amax(np.abs(region.dx.centre[:, 0] - (pv[2::2] - pv[:-2:2]))))
         wmid = max(wmid, amax(np.abs(pv[1::2] - 0.5 * (pv[:-1:2] + pv[2::2])) / np.abs(pv[-1] - pv[0])))
     out.append(rec("psi_vals strictly monotone in every region", cls, nreg, nmono, 0))
-    out.append(rec("adjoining radial segments share the boundary value", cls, nshare, share, 0.0))
+    out.append(rec("adjoining radial segments share the boundary value", cls, nshare, share, 4.0, note="difference in units of the floating-point spacing of the largest |psi| of the two segments"))
     out.append(rec("dx=psi difference of the x-faces (memory)", cls, nreg, wdx, 0.0))
     out.append(rec("cell centres at the mid-points of the faces (in psi)", cls, nreg, wmid, 1e-15))
     # file: dx against psi evaluated at the x-face positions in the file
@@ -135,7 +138,9 @@ def run(cap):
                 continue
             a = np.asarray(region.psi_vals, float)
             b = np.asarray(mesh.regions[oid].psi_vals, float)
-            if len(a) >= 5 and len(b) >= 5:
+            # only where both segments have >= 4 cells: with fewer the third-order term of the
+            # spacing function is not small compared with the cell width
+            if len(a) >= 9 and len(b) >= 9:
                 din = a[-1] - a[-3]
                 dout = b[2] - b[0]
                 wg = max(wg, abs(din / dout - 1.0))
